@@ -142,6 +142,15 @@ fn faults(labels: &[String], rng: &mut Rng) -> Vec<(&'static str, Vec<Node>)> {
     if !labels.is_empty() {
         let l = rng.pick(labels).clone();
         v.push(("duplicate-label", vec![Node::Label(crate::gen::spell::case(&l, rng))]));
+        // a label of the program (defined before or behind the faulty line) where only what is known while the
+        // text is read can stand: the position of a label is not - the line at fault is the directive's
+        let l = rng.pick(labels).clone();
+        let l = crate::gen::spell::case(&l, rng);
+        v.push(("label-where-it-has-no-value-yet", match rng.below(3) {
+            0 => vec![Node::Raw(format!(".if {}", l)), Node::Raw(".endif".into())],
+            1 => vec![Node::Raw(format!(".if {} + 1 > 0", l)), Node::Raw(".endif".into())],
+            _ => vec![Node::Raw(format!(".org {} + 0x2000", l))],
+        }));
     }
     v
 }
@@ -636,7 +645,7 @@ pub fn run(ctx: &Ctx) -> i32 {
     }
     fw::finish(
         ctx,
-        "valid base programs of 5-40 lines (labels, instructions, data, .equ, .set, conditional blocks, three segments) x every insertion position on the assembling path (top level and inside the taken branch) x 24 kinds of single-line fault (syntax, unknown mnemonic/macro, register<->expression confusion, out-of-range immediate/register class/port/bit/displacement/relative target, operand count, undefined symbol in instruction/alias/data/.set/.if - also in an operand that cannot change the value (0 && x, 1 || x, 0 * x) -, duplicate label, out-of-range data, string in word directive, .error, division by zero): build must fail with an error containing the token `line: p`; per base every single-line fault kind once more inside the body of a macro (behind blank and comment-only lines, with and without parameters) that is called once, and a macro holding only .message/.warning lines (each must be reported with the number of the body line it is written on); per base 4 second definitions of an existing label appended behind a segment boundary (.org, .dseg, .eseg, .eseg then .cseg); per base every fault kind once more as files (the whole program as a file beginning with 0-3 blank lines; a run of top-level lines around the fault moved into an included file beginning with blank lines: the error names the line counted in the file it stands in); plus 3 message placements per base, each also split over a main and an included file, (.message/.warning at top level and inside taken/untaken branches): images unchanged, message list equals the expected (text, line, order, kind distinguishable); distinct_nontrivial = distinct base programs; counters fault:* = faulty builds per kind",
+        "valid base programs of 5-40 lines (labels, instructions, data, .equ, .set, conditional blocks, three segments) x every insertion position on the assembling path (top level and inside the taken branch) x 25 kinds of single-line fault (syntax, unknown mnemonic/macro, register<->expression confusion, out-of-range immediate/register class/port/bit/displacement/relative target, operand count, undefined symbol in instruction/alias/data/.set/.if - also in an operand that cannot change the value (0 && x, 1 || x, 0 * x) -, duplicate label, a label of the program in .if / .org (where it has no value yet), out-of-range data, string in word directive, .error, division by zero): build must fail with an error containing the token `line: p`; per base every single-line fault kind once more inside the body of a macro (behind blank and comment-only lines, with and without parameters) that is called once, and a macro holding only .message/.warning lines (each must be reported with the number of the body line it is written on); per base 4 second definitions of an existing label appended behind a segment boundary (.org, .dseg, .eseg, .eseg then .cseg); per base every fault kind once more as files (the whole program as a file beginning with 0-3 blank lines; a run of top-level lines around the fault moved into an included file beginning with blank lines: the error names the line counted in the file it stands in); plus 3 message placements per base, each also split over a main and an included file, (.message/.warning at top level and inside taken/untaken branches): images unchanged, message list equals the expected (text, line, order, kind distinguishable); distinct_nontrivial = distinct base programs; counters fault:* = faulty builds per kind",
         &["every program starts with a comment line so p >= 2 (PEG errors embed `line: 1`); for a duplicate label either defining line is accepted", "a fault inside a macro body is attributed to the body line it is written on (the line at fault); the order of body messages relative to top-level messages is not checked"],
     )
 }
